@@ -196,7 +196,9 @@ fn layouts(args: &Args, rep: &mut Report, rng: &mut Rng) {
         "out/schema.ts", "out/schema.mts", "out/schema.d.cts", "src/ops/nested/.gen/schema.d.mts", "src/..meta/schema.d.ts",
         // confusable with the input directories (schema/, schema/sub/, src/ops, …): case only, or a shared component name after the paths diverge
         "Schema/schema.d.ts", "gen/sub/schema.d.ts", "SRC/ops/schema.d.ts", "generated/Ops/schema.d.ts", "src/graphql/schema.d.ts",
-        // file names with further dots in the stem, dot-only / extension-like stems, upper-case extensions left alone
+        // an output directory whose NAME is a textual prefix of an input directory's name at the same place (sche ⊏ schema,
+        // schema/su ⊏ schema/sub, src/op ⊏ src/ops), and the converse (schema ⊏ schema-gen): component-wise they are siblings
+        "sche/schema.d.ts", "schema/su/schema.d.ts", "src/op/schema.d.ts", "s/schema.d.ts", "schema-gen/schema.d.ts", "schema/sub-gen/schema.d.ts", "src/ops-gen/schema.d.ts",
         // configured paths that are not normalised: parent-directory and current-directory segments
         "src/../generated/x.d.ts", "./src/./gen/../gen2/schema.d.ts", "src/ops/../../schema.d.ts", "a/b/../../c/../schema.d.ts",
         "out/api.schema.d.ts", "out/schema.generated.ts", "out/graphql.v2.d.mts", "out/a.b.c.d.cts", "out/.schema.d.ts", "out/schema.d.d.ts", "gen.d/ts.d.ts",
@@ -204,7 +206,7 @@ fn layouts(args: &Args, rep: &mut Report, rng: &mut Rng) {
     let op_dir_sets: [&[&str]; 8] = [&["src/ops"], &["src/ops", "src/ops/nested"], &["src/ops", "other/dir/deep"], &[".", "src/a/b/c"], &["src/ops", "src/.hidden"],
         // directories that differ from an output directory only by case / share a component name at the same depth after diverging
         &["Generated/ops", "src/Generated"], &["SRC/ops", "src/OPS"], &["gen/graphql", "src/graphql"]];
-    let n = args.budget(27, 80);
+    let n = args.budget(schema_outs.len(), schema_outs.len() + 60);
     for i in 0..n {
         let so = if i < schema_outs.len() { schema_outs[i] } else { schema_outs[rng.below(schema_outs.len())] };
         let ods = if i < op_dir_sets.len() { op_dir_sets[i] } else { op_dir_sets[rng.below(op_dir_sets.len())] };
